@@ -48,6 +48,16 @@ AltTexts(C, r) ==
           \cup (IF r.idx < 0 THEN {} ELSE
                 { "@" \o ToString(c) \o "/" \o ToString(i) \o "/" \o ToString(a) \o "/" \o ToString(r.idx) \o (IF r.n = 1 THEN "" ELSE "*" \o ToString(r.n)),
                   "@" \o ToString(c) \o "/" \o ToString(i) \o "/" \o ToString(a) \o "[" \o ToString(r.idx) \o "]*" \o ToString(r.n) })
+\* Multi-level tags: components joined by '.', each optionally indexed; only the LAST component's index / range is the operation's
+\* element and count -- an inner component's index is part of the path and nothing else.  A component is <<name text, first, last>>
+\* (first < 0: not indexed; last > first: a range, on the last component only).
+CompText(c) == c[1] \o (IF c[2] < 0 THEN "" ELSE "[" \o ToString(c[2]) \o (IF c[3] > c[2] THEN "-" \o ToString(c[3]) ELSE "") \o "]")
+RECURSIVE DotText(_)
+DotText(cs) == IF Len(cs) = 1 THEN CompText(cs[1]) ELSE CompText(cs[1]) \o "." \o DotText(Tail(cs))
+RECURSIVE DotSegs(_)
+DotSegs(cs) == IF cs = <<>> THEN <<>> ELSE << [k |-> "sym", s |-> cs[1][1]] >> \o (IF cs[1][2] < 0 THEN <<>> ELSE << [k |-> "elem", v |-> cs[1][2]] >>) \o DotSegs(Tail(cs))
+DotElm(cs) == cs[Len(cs)][2]                                                       \* -1: none
+DotCnt(cs) == LET c == cs[Len(cs)] IN IF c[2] >= 0 /\ c[3] > c[2] THEN c[3] - c[2] + 1 ELSE 0 - 1     \* -1: none
 \* A write spelled WITHOUT a cast: integer values denote the default integer type of the entry point that parses the text --
 \* INT for tag operations (client.parse_operations), SINT for attribute operations (get_attribute.attribute_operations)
 DefaultIntType(r) == IF r.svc = "sas" THEN "SINT" ELSE "INT"
